@@ -12,7 +12,11 @@ invalid-argument enumeration, fault injection, read-only probes).
            data identity, data_id, meta, `_node_by_id`, `_nodes_by_data_id` incl. dict / list order);
     after ANY step - also after an exception escaped from a user callback at any invocation - the C01-C03
         predicates of mut.py (wf_oracle, index_oracle, sibling_oracle) hold for every tree;
-    read-only operations (and the source of Tree.copy / Node.copy) leave the snapshot unchanged.
+    an operation that fails by itself with any other exception (no callback raised) leaves the snapshot unchanged;
+    sort / in-place filter, clean or with a raising callback, have only their documented partial effect (rows of the
+        tree permuted / removed; registry and index untouched by sort);
+    read-only operations (and the source of Tree.copy / Node.copy / add(node) / add(tree) / copy_to from another tree)
+        leave the snapshot unchanged.
 """
 from __future__ import annotations
 
@@ -51,7 +55,7 @@ class Prop:
     rule = ("(a) corpus of defect witnesses (mut.CORPUS + C13.CORPUS); (b) invalid arguments, exhaustive: every ordered forest with <= N nodes "
             "(N=3 quick, 4 thorough) under three labelings (distinct strings / equal-comparing objects with distinct explicit ids / clones in "
             "different parents) in tree 0 next to a second tree of two nodes whose top node carries the data of tree 0's first node, plain "
-            "(thorough: also typed, <= 3 nodes; at the largest size the high-volume families are sampled); on it every operation with every documented-invalid argument and its nearest valid "
+            "(quick: also typed with 2 nodes; thorough: also typed, <= 3 nodes; at the largest size the high-volume families are sampled); on it every operation with every documented-invalid argument and its nearest valid "
             "neighbours: add under every parent with before in {node of another parent, node of the other tree, bools, in-range / negative / "
             "too large indexes, a child, None, 0}, colliding data and colliding explicit ids at every position, the four shortcuts with "
             "colliding data, add(node) of every node of both trees under every parent x deep in {None, True, False} (same parent, own branch, "
